@@ -103,6 +103,7 @@ def requirements(tier):
         req[f"measure:{m}:legs1"] = 1000 * k
         req[f"measure:{m}:legs2"] = 1000 * k
     req["measure:re-measured-after-in-place-edit"] = 1000 * k
+    req["measure:state-given-in-another-station-frame"] = 1000 * k
     req["measure:path:three-way"] = 100 * k
     req["measure:path:relayed"] = 100 * k
     for h in COORD_TYPES:
@@ -702,6 +703,25 @@ def measure_checks(ctx, rng, station, given, date, lk, tols, w, measures, sfx, o
                                f"{cls_name}: state edited in place and measured again gives {again!r}, a fresh state with the same numbers {ref_v!r}")
                 except Exception as exc:
                     ctx.violation(f"C11/measure-{cls_name.lower()}-raises", dict(wm, exc=repr(exc), step="re-measure after in-place edit"), f"{cls_name}.from_orbit raised {exc!r}")
+            # the state may be handed over expressed in ANOTHER station's frame (a point yielded by that station's
+            # visibility): the measure is still the one of the measuring station
+            if shape == "one-way" and others and hasattr(given, "copy"):
+                try:
+                    other_frame = rng.choice(list(others))
+                    # (cartesian: a target next to the measuring station sits at the nadir of an antipodal one, where the
+                    # spherical form is ill-conditioned -- arcsin next to -1 --, which is C01's subject: 7e-5 m observed)
+                    elsewhere = given.copy(frame=other_frame, form="cartesian")
+                    v2 = float(M(path, date, float("nan")).from_orbit(elsewhere).value)
+                    ctx.count("measure:state-given-in-another-station-frame")
+                    d2 = geo.angdiff(v2, val) if cls_name == "Azimut" else abs(v2 - val)
+                    # the detour adds two more station <-> Earth-fixed conversions (each within the base tolerance, which is
+                    # 1e-13 of the geometry; measured worst 4.2x over 13 000 samples): 20x; a wrong station is off by kilometres
+                    tol2 = {"Range": 20 * tol_pos, "Doppler": 20 * tol_rr, "Azimut": 20 * tol_az, "Elevation": 20 * tol_el}[cls_name]
+                    ctx.resid("measure:via-other-station-frame:" + cls_name.lower(), d2, tol2, key="C11/measure-depends-on-the-frame-the-state-is-given-in",
+                              witness=dict(wm, given_in=str(other_frame), value=v2, value_from_the_original_frame=val),
+                              msg=f"{cls_name} of the same state given in the frame of station {other_frame}: {v2!r}, given in its original frame: {val!r}")
+                except Exception as exc:
+                    ctx.violation(f"C11/measure-{cls_name.lower()}-raises", dict(wm, exc=repr(exc), step="state given in another station's frame"), f"{cls_name}.from_orbit raised {exc!r}")
             meta_ok = (
                 type(got) is M and got.date == given.date and tuple(got.path) == tuple(path) and got.frame is first and got.type == cls_name
             )
